@@ -153,3 +153,25 @@ def program_plugins(prog, log):
         Prog.__name__ = Prog.__qualname__ = 'Prog_%d_%d' % (p, id(log))
         return Prog
     return [make(i + 1, b) for i, b in enumerate(prog)]
+
+
+def ws_echo_plugin():
+    """A web-server route plugin that upgrades /ws to WebSocket and echoes every frame back (same opcode, unmasked, FIN)."""
+    from proxy.http.server import HttpWebServerBasePlugin, httpProtocolTypes
+    from proxy.http.websocket import WebsocketFrame
+
+    class WsEcho(HttpWebServerBasePlugin):
+        def routes(self):
+            return [(httpProtocolTypes.WEBSOCKET, r'/ws$')]
+
+        def handle_request(self, request):
+            from proxy.http.responses import NOT_FOUND_RESPONSE_PKT
+            self.client.queue(NOT_FOUND_RESPONSE_PKT)
+
+        def on_websocket_message(self, frame):
+            out = WebsocketFrame()
+            out.fin = True
+            out.opcode = frame.opcode
+            out.data = frame.data
+            self.client.queue(memoryview(out.build()))
+    return WsEcho
